@@ -2,6 +2,9 @@ import SdJwt.Exec.Wire
 import SdJwt.Impl.Parts
 import SdJwt.Impl.Flows
 import SdJwt.Impl.Issuer
+import SdJwt.Impl.Validation
+import SdJwt.Impl.Header
+import SdJwt.Impl.Yaml
 import SdJwt.Spec.RefVerify
 /-!
 Executable-only: the operations the correspondence harness can ask for, one JSON object per
@@ -189,6 +192,89 @@ def opIssue (req : J) : J :=
       ("srcs", .arr (srcs.map fun (k, v) => .arr [match k with | some k => S k | none => .null, v]))])
     (Impl.encode claims paths mk decoys cnf)
 
+/-! ## validation policy, header, yaml -/
+
+def algOfName (n : String) : Impl.Alg := (Impl.Alg.all.find? (fun a => a.name = n)).getD .RS256
+
+def jwtAlgOfName (n : String) : Option Impl.JwtAlg :=
+  [Impl.JwtAlg.HS256, .HS384, .HS512, .RS256, .RS384, .RS512, .PS256, .PS384, .PS512, .ES256, .ES256K, .ES384, .ES512].find? (fun a => a.name = n)
+
+def stepOf (j : J) : Option Impl.Step :=
+  match j with
+  | .arr [.str "withoutExpiry"] => some .withoutExpiry
+  | .arr [.str "withAudience", .str a] => some (.withAudience a)
+  | .arr [.str "withIssuer", .str a] => some (.withIssuer a)
+  | .arr [.str "withSubject", .str a] => some (.withSubject a)
+  | .arr [.str "withLeeway", .num n 0] => some (.withLeeway n.toNat)
+  | .arr [.str "withAlgorithm", .str a] => some (.withAlgorithm (algOfName a))
+  | .arr [.str "withRequiredClaim", .str a] => some (.withRequiredClaim a)
+  | _ => none
+
+def policyOf (req : J) : Impl.Validation :=
+  let start := match jstr? req "start" with
+    | some "default" => Impl.Validation.default
+    | some a => Impl.Validation.new (algOfName a)
+    | none => Impl.Validation.default
+  let v := start.steps ((jarr req "steps").filterMap stepOf)
+  -- direct field assignments the harness may make on the public fields
+  let v := match jget req "validate_nbf" with
+    | some (.bool b) => { v with validateNbf := b }
+    | _ => v
+  v
+
+def optS (o : Option String) : J := match o with | some s => S s | none => .null
+def optL (o : Option (List String)) : J := match o with | some l => .arr (l.map S) | none => .null
+
+def policyJ (v : Impl.Validation) : J :=
+  mkObj [("required", optL v.required), ("leeway", .num v.leeway 0), ("validate_exp", .bool v.validateExp),
+         ("validate_nbf", .bool v.validateNbf), ("validate_aud", .bool v.validateAud), ("aud", optL v.aud),
+         ("iss", optS v.iss), ("sub", optS v.sub), ("alg", S v.alg.name)]
+
+def opPolicy (req : J) : J := mkObj [("policy", policyJ (policyOf req))]
+
+def opDecide (req : J) : J :=
+  let v := policyOf req
+  let fam : Impl.KeyFam := match jstr req "fam" with
+    | "secret" => .secret | "rsa" => .rsa | _ => .ec
+  match jwtAlgOfName (jstr req "hdr_alg") with
+  | none => mkObj [("err", S "jwt")]
+  | some ha =>
+    outcomeJ (fun _ => .bool true)
+      (Impl.decodeDecision v fam ha (jbool req "sig_ok") ((jget req "payload").getD .null) (jnat req "now"))
+
+def optStrOf (j : J) (k : String) : Option String := jstr? j k
+def optListOf (j : J) (k : String) : Option (List String) :=
+  match jget j k with
+  | some (.arr xs) => some (strs xs)
+  | _ => none
+
+def opHeader (req : J) : J :=
+  let h := (jget req "h").getD .null
+  let hd : Impl.Header :=
+    { typ := optStrOf h "typ", alg := algOfName (jstr h "alg"), cty := optStrOf h "cty", jku := optStrOf h "jku",
+      kid := optStrOf h "kid", x5u := optStrOf h "x5u", x5c := optListOf h "x5c", x5t := optStrOf h "x5t",
+      x5tS256 := optStrOf h "x5t_s256", crit := optListOf h "crit" }
+  mkObj [("header", Impl.headerRoundTrip hd)]
+
+partial def yOf (j : J) : Impl.Y :=
+  match jstr j "y" with
+  | "null" => .null
+  | "bool" => .bool (jbool j "v")
+  | "num" => match jget j "v" with
+    | some (.num m e) => .num m e
+    | _ => .null
+  | "str" => .str (jstr j "v")
+  | "seq" => .seq ((jarr j "xs").map yOf)
+  | "map" => .map ((jarr j "kvs").filterMap fun kv => match kv with
+      | .arr [k, v] => some (yOf k, yOf v)
+      | _ => none)
+  | "tag" => .tagged (jstr j "tag") (yOf ((jget j "v").getD .null))
+  | _ => .null
+
+def opYaml (req : J) : J :=
+  outcomeJ (fun (j, ps) => mkObj [("json", j), ("paths", .arr (ps.map S))])
+    (Impl.parseYaml (yOf ((jget req "doc").getD .null)))
+
 def dispatch (req : J) : J :=
   match jstr req "op" with
   | "hash" => opHash req
@@ -197,6 +283,10 @@ def dispatch (req : J) : J :=
   | "tree" => opTree req
   | "flow" => opFlow req
   | "issue" => opIssue req
+  | "policy" => opPolicy req
+  | "decide" => opDecide req
+  | "header" => opHeader req
+  | "yaml" => opYaml req
   | "ping" => mkObj [("pong", .bool true)]
   | op => mkObj [("error", S ("unknown op " ++ op))]
 
